@@ -242,3 +242,42 @@ def body_as_expr(stmts):
             continue
         return None
     return None
+
+
+def attr_call(e, func, call):
+    """(receiver expression, method name) of a call written `x.m(...)` or through a local alias `a = x.m; a(...)`
+    (every definition of the alias names the same method), else None."""
+    fn = call.func
+    if isinstance(fn, ast.Attribute):
+        return fn.value, fn.attr
+    if isinstance(fn, ast.Name):
+        defs = e.local_defs(func, fn.id)
+        if defs and all(isinstance(d, ast.Attribute) for d in defs) and len({d.attr for d in defs}) == 1:
+            return defs[0].value, defs[0].attr
+    return None
+
+
+def nonempty_test(expr):
+    """(subject expr, label of the non-empty branch) for the spellings of "this builtin container is not empty":
+    `x`, `not x`, `len(x) > 0`, `len(x) != 0`, `len(x) >= 1`, `0 < len(x)`, `len(x) == 0`, `len(x) < 1`, `len(x)`; None otherwise.
+    (Only to be used where the subject is known to be a list / dict / deque: for those truthiness IS len() != 0.)"""
+    if isinstance(expr, ast.UnaryOp) and isinstance(expr.op, ast.Not):
+        r = nonempty_test(expr.operand)
+        return (r[0], "F" if r[1] == "T" else "T") if r else None
+    if isinstance(expr, (ast.Name, ast.Attribute)):
+        return expr, "T"
+    is_len = lambda x: isinstance(x, ast.Call) and isinstance(x.func, ast.Name) and x.func.id == "len" and len(x.args) == 1 and not x.keywords
+    if is_len(expr):
+        return expr.args[0], "T"
+    if isinstance(expr, ast.Compare) and len(expr.ops) == 1:
+        l, op, r = expr.left, expr.ops[0], expr.comparators[0]
+        flip = {ast.Lt: ast.Gt, ast.Gt: ast.Lt, ast.LtE: ast.GtE, ast.GtE: ast.LtE, ast.Eq: ast.Eq, ast.NotEq: ast.NotEq}
+        if is_len(r) and isinstance(l, ast.Constant) and type(op) in flip:
+            l, op, r = r, flip[type(op)](), l
+        if is_len(l) and isinstance(r, ast.Constant) and isinstance(r.value, int) and not isinstance(r.value, bool):
+            k = r.value
+            table = {(ast.Gt, 0): "T", (ast.NotEq, 0): "T", (ast.GtE, 1): "T", (ast.Eq, 0): "F", (ast.Lt, 1): "F", (ast.LtE, 0): "F"}
+            lab = table.get((type(op), k))
+            if lab:
+                return l.args[0], lab
+    return None
